@@ -228,6 +228,7 @@ Theorem resize_spec start_addr new_size s :
   match mem_resize_section start_addr new_size s with
   | (Ok _, s') =>
       exists k a, nth_error (mem s) k = Some a /\ a_start a = start_addr /\
+                  (forall j b, (k < j)%nat -> nth_error (mem s) j = Some b -> a_start b <> start_addr) /\
                   (forall j b, j <> k -> nth_error (mem s) j = Some b ->
                                ~ overlaps (a_start b) (a_len b) start_addr new_size) /\
                   mem s' = replace_nth (mem s) k (resized a new_size) /\
@@ -250,7 +251,7 @@ Proof.
   assert (Hain : In a (mem s)) by (eapply nth_error_In; eauto).
   destruct (inv_area_ok _ _ HI Hain) as (A0 & A1 & A2 & A3 & A4).
   fold (resized a new_size).
-  exists j, a. split; [exact Hk|]. split; [exact Hs|].
+  exists j, a. split; [exact Hk|]. split; [exact Hs|]. split; [exact Hlast|].
   destruct HI as [Hok Hp].
   assert (Hother : forall i b, i <> j -> nth_error (mem s) i = Some b ->
             (a_start b = start_addr -> (i < j)%nat /\ a_len b = 0) /\
@@ -623,7 +624,7 @@ Proof.
   - destruct (mem_prot start p s) as [r s1] eqn:E. eapply prot_preserves_inv; eauto.
   - pose proof (resize_spec start n s HI Hw) as H.
     destruct (mem_resize_section start n s) as [[u|e|p|] s1]; cbn [snd]; try contradiction.
-    + destruct H as (k & a & _ & _ & _ & _ & _ & HI1). exact HI1.
+    + destruct H as (k & a & _ & _ & _ & _ & _ & _ & HI1). exact HI1.
     + subst. exact HI.
   - apply init_stack_mem. exact HI.
   - destruct (write_never_panics a d s HI) as [[s1 E]|[e E]]; rewrite E; cbn [snd]; [|exact HI].
